@@ -13,6 +13,16 @@ def build(run):
     timedate.verify_ts_reconfig(run)
     timedate.verify_maintask(run)
     timedate.verify_range_endpoints(run)
+    # 'True exactly when the current time of day and date match': recalc() asks the interval objects; their membership test and the
+    # comparison functions behind it are verified here too (contracts shared with C13)
+    from specs import c13
+    H = {'order': c13.order_hook}
+    run.verify('_Interval._cmp_open', hooks=H)
+    run.verify('_Interval._cmp_closed', hooks=H)
+    run.verify('DateTimeInterval._cmp_open', hooks=H)
+    for k in ('TimeInterval', 'DateInterval', 'DateTimeInterval'):
+        run.verify(f'{k}._cmp', cls=k, label=f'{k}._cmp', hooks=H)
+        run.verify(f'{k}.__contains__', cls=k, label=f'{k}.__contains__', hooks=H)
     run.replayer('Cron._maintask/call:set.union/pre:at_least_one_set_is_given', lambda run_, ob, model: open('/verif/specs/replay_c07a.py').read())
     run.replayer('Cron._maintask/trace:sleeps_only_while_the_wakeup_time_is_ahead_and_never_beyond_it', lambda run_, ob, model: open('/verif/specs/replay_c07b.py').read())
 
